@@ -1,6 +1,8 @@
 package main
 
 import (
+	"strconv"
+	"archive/tar"
 	"github.com/spf13/afero"
 	"bytes"
 	"context"
@@ -36,6 +38,39 @@ func genContent(size int, dist string, seed uint64) []byte {
 	}
 	switch dist {
 	case "zeros":
+	case "tar":
+		// content that is itself a tar stream (a backup stored on the tape), with members named like entries of the tree and
+		// carrying STFS action records: whoever parses content as tape structure gets plausible, wrong records
+		if size < 1024 {
+			return genContent(size, "text", seed)
+		}
+		r := newRand(seed)
+		var tb bytes.Buffer
+		tw := tar.NewWriter(&tb)
+		names := []string{"/a", "/ab", "a", "/a/a", "/d", "/d/a", "/", "./a", "/x.gz", "/b", "/a_", "/n00", "/docs/secret.txt", "/s1/log"}
+		for tb.Len() < size {
+			n := names[r.Intn(len(names))]
+			body := genContent(r.Intn(900), "text", r.Uint64())
+			h := &tar.Header{Typeflag: tar.TypeReg, Name: n, Size: int64(len(body)), Mode: 0o644, ModTime: time.Unix(1600000000+int64(r.Intn(1000)), 0), Format: tar.FormatPAX}
+			switch r.Intn(5) {
+			case 0:
+				h.Typeflag, h.Size, body = tar.TypeDir, 0, nil
+			case 1:
+				h.PAXRecords = map[string]string{"STFS.Version": "1", "STFS.Action": "DELETE"}
+				h.Size, body = 0, nil
+			case 2:
+				h.PAXRecords = map[string]string{"STFS.Version": "1", "STFS.Action": "CREATE", "STFS.UncompressedSize": fmt.Sprint(len(body))}
+			case 3:
+				h.PAXRecords = map[string]string{"STFS.Version": "1", "STFS.Action": "UPDATE", "STFS.ReplacesName": names[r.Intn(len(names))]}
+				h.Size, body = 0, nil
+			}
+			if err := tw.WriteHeader(h); err != nil {
+				break
+			}
+			_, _ = tw.Write(body)
+			_ = tw.Flush()
+		}
+		copy(b, tb.Bytes())
 	case "text":
 		r := newRand(seed)
 		i := 0
@@ -136,6 +171,18 @@ func fileMember(p string, content []byte, mode os.FileMode, mt time.Time) config
 	}
 }
 
+// staleMember is fileMember with an Info that was taken before the source changed: its Size is off by `stale` bytes (a file that grew
+// or shrank between the scan and the read, as with `stfs operation archive` on a live log file).
+func staleMember(p string, content []byte, mode os.FileMode, mt time.Time, stale int) config.FileConfig {
+	fc := fileMember(p, content, mode, mt)
+	sz := int64(len(content) + stale)
+	if sz < 0 {
+		sz = 0
+	}
+	fc.Info = memInfo{name: p, size: sz, mode: mode, mt: mt}
+	return fc
+}
+
 func dirMember(p string, mode os.FileMode, mt time.Time) config.FileConfig {
 	return config.FileConfig{Info: memInfo{name: p, mode: mode | os.ModeDir, mt: mt}, Path: p}
 }
@@ -220,6 +267,30 @@ func expectUnsupported(c Cfg) bool {
 type matrixP struct {
 	Cfg Cfg `json:"cfg"`
 	Big int `json:"big,omitempty"` // additionally one file of this many bytes, written in several Write calls
+	Far bool `json:"far,omitempty"` // sparse filler members (as a standard tar writer appends them) push later records beyond byte 2^31 and 2^32 of the tape
+}
+
+// appendSparseMember appends one regular tar member of the given size to the drive the way `tar -r` would, without writing its
+// content: the file is extended (sparse), so positions behind it are real while the tape costs no memory.
+func appendSparseMember(drive, name string, size int64) error {
+	var hb bytes.Buffer
+	tw := tar.NewWriter(&hb)
+	if err := tw.WriteHeader(&tar.Header{Typeflag: tar.TypeReg, Name: name, Size: size, Mode: 0o644, ModTime: time.Unix(1650000000, 0), Format: tar.FormatPAX}); err != nil {
+		return err
+	}
+	f, err := os.OpenFile(drive, os.O_WRONLY|os.O_APPEND, 0)
+	if err != nil {
+		return err
+	}
+	defer f.Close()
+	if _, err := f.Write(hb.Bytes()); err != nil { // header block(s) only: the writer is abandoned before its content
+		return err
+	}
+	st, err := f.Stat()
+	if err != nil {
+		return err
+	}
+	return f.Truncate(st.Size() + (size+511)/512*512)
 }
 
 func allPipelines() []Cfg {
@@ -294,6 +365,19 @@ func c03Cases(prop, tier string, seed uint64) []Case {
 		}
 	}
 	var cases []Case
+	// positions: tapes of more than 4 GiB (sparse) under plain configurations - foreign filler members can only sit on unencrypted, unsigned tapes
+	farN := 1
+	if tier == "thorough" {
+		farN = 4
+	}
+	for i := 0; i < farN; i++ {
+		fc := Cfg{Level: "fastest", RS: []int{20, 2048, 1, 64}[i], WC: wcs[i%2]}
+		if i == 3 {
+			fc.Comp = "gzip"
+		}
+		pb, _ := json.Marshal(matrixP{Cfg: fc, Far: true})
+		cases = append(cases, Case{ID: fmt.Sprintf("c03-far-%d-%s", i, fc.String()), Seed: subSeed(seed, prop, "far", fmt.Sprint(i)), P: pb})
+	}
 	bigs := []int{70001, 1<<20 + 3, 8<<20 + 12345}
 	for i, c := range cfgs {
 		mp := matrixP{Cfg: c}
@@ -328,7 +412,7 @@ func c03Run(prop, tier string, c Case, w *Worker) (res Result) {
 		res.Msg = "rig: " + err.Error()
 		return
 	}
-	defer rig.Close()
+	defer func() { rig.Close() }()
 	if err := rig.Init(); err != nil {
 		if expectUnsupported(cfg) && isUnsupportedErr(err) {
 			if held := rig.LocksSettled(); len(held) > 0 {
@@ -385,6 +469,36 @@ func c03Run(prop, tier string, c Case, w *Worker) (res Result) {
 		}
 		items = append(items, item{name, content, "fs"})
 	}
+	// far: a standard tar writer appends a huge member; the index is rebuilt from the tape (an index that has not seen foreign
+	// records is the shape of the open finding stale-index-open) and the instance continues behind it
+	farExtend := func(name string, size int64) bool {
+		rig.LocksSettled()
+		rig.Close()
+		if err := appendSparseMember(rig.Drive, name, size); err != nil {
+			res.Verdict, res.Msg = "inconclusive", "sparse member: "+err.Error()
+			return false
+		}
+		_ = os.Remove(rig.DB)
+		nr, err := NewRig(dir, cfg)
+		if err != nil {
+			res.Verdict, res.Msg = "inconclusive", "rig: "+err.Error()
+			return false
+		}
+		rig = nr
+		if err := rig.Init(); err != nil {
+			fail("far-reopen", "opening the tape (index absent) after a %d-byte member was appended by a tar writer: %v", size, err)
+			return false
+		}
+		res.count("sparse_fillers", 1)
+		return true
+	}
+	if p.Far {
+		stepBudget.Store(40 * stepBudgetDefault) // the indexer reads through 4 GiB of member content in 8 KiB pieces
+		defer stepBudget.Store(stepBudgetDefault)
+	}
+	if p.Far && !farExtend("/filler-1", farSize(1<<31+5<<20+77)) {
+		return
+	}
 	if !cfg.TapeMode {
 		// every configuration: one incompressible file that spans several codec blocks (bzip2 blocks of 100k at the fastest level,
 		// lz4 / zstandard blocks, the 64 KiB chunks of age, partial-length OpenPGP packets)
@@ -434,6 +548,9 @@ func c03Run(prop, tier string, c Case, w *Worker) (res Result) {
 			return
 		}
 		items = append(items, item{"/empty-nowrite", []byte{}, "fs-nowrite"})
+	}
+	if p.Far && !farExtend("/filler-2", farSize(1<<31+3<<20+512)) {
+		return
 	}
 	// 2. write through the archive interface (batched), then replace some through Update
 	var ms []config.FileConfig
@@ -682,4 +799,14 @@ func codecSuffix(comp, enc string) string {
 		s += ".pgp"
 	}
 	return s
+}
+
+// farSize lets a debugging run shrink the sparse fillers (VERIF_FAR_SIZE bytes); unset, the real sizes are used.
+func farSize(n int64) int64 {
+	if v := os.Getenv("VERIF_FAR_SIZE"); v != "" {
+		if x, err := strconv.ParseInt(v, 10, 64); err == nil {
+			return x + n%1024
+		}
+	}
+	return n
 }
